@@ -109,12 +109,18 @@ def _params():
                 'h': ds.target_height, 'look': ds.look_angle}
 
     def gstep(v):
-        old = tcmod._globalMaxCalcStepSizeFeet
+        # public API only: the value in force right after the call, and the value a calculator created LATER - after the preferred
+        # distance unit has been changed - works with (a bare number is read in the unit preferred when it was given)
         try:
             tcmod.set_global_max_calc_step_size(v)
-            return {'step': tcmod._globalMaxCalcStepSizeFeet}
+            now = tcmod.get_global_max_calc_step_size() >> U.Foot
+            with with_preferred(distance=(U.Kilometer if p.PreferredUnits.distance != U.Kilometer else U.Inch)):
+                later = tcmod.get_global_max_calc_step_size() >> U.Foot
+                calc = p.Calculator()
+                used = calc._calc._config.max_calc_step_size_feet
+            return {'step': now, 'step_seen_later': later, 'step_of_later_calculator': used}
         finally:
-            tcmod._globalMaxCalcStepSizeFeet = old
+            tcmod.reset_globals()
 
     def sens(v=None, t=None):
         a = p.Ammo(dm(), U.MPS(800), U.Celsius(15))
@@ -447,7 +453,6 @@ def c07_globals(ctx):
     import sys
     import py_ballisticcalc.trajectory_calc as tcpkg
     g = ctx.real('global_step_ft', 1e-3, 50)
-    old = tcpkg._globalMaxCalcStepSizeFeet
 
     def snap_globals():
         out = {}
@@ -458,7 +463,7 @@ def c07_globals(ctx):
                         out[f'{name}.{k}'] = v
         return out
     try:
-        tcpkg._globalMaxCalcStepSizeFeet = g
+        tcpkg.set_global_max_calc_step_size(p.Distance.Foot(g))        # through the public setter (no private name of the package is touched)
         before = snap_globals()
         for action in ('loadImperialUnits', 'loadMetricUnits', 'loadMixedUnits', 'set', 'defaults'):
             with with_preferred():
@@ -472,6 +477,6 @@ def c07_globals(ctx):
                 changed = [k for k in before if not (ctx.same_term(before[k], after.get(k)) if isinstance(before[k], float) else before[k] == after.get(k))]
                 ctx.check('choosing_units_touches_nothing_but_the_slots', changed == [], info={'action': action, 'changed': changed[:4]})
                 c = p.Calculator()
-                ctx.check('calculator_created_after_choosing_units_has_the_global_step', ctx.same_term(c._calc._config.max_calc_step_size_feet, g), info={'action': action})
+                ctx.check_eq('calculator_created_after_choosing_units_has_the_global_step', c._calc._config.max_calc_step_size_feet, g, rel=1e-12, info={'action': action})
     finally:
-        tcpkg._globalMaxCalcStepSizeFeet = old
+        tcpkg.reset_globals()
